@@ -149,19 +149,18 @@ def run(eng, rep, tier):
               "terminals are lifted into their own productions before long bodies are binarised",
               "binarisation does not run on the terminal-lifted productions", summ, site=site_of(prog, fi, fi.node))
     # -------------------------------------------------------------- C09.4 cache coherence
-    evs = [ev for ev in summ.events if (ev.kind == "write" and ev.attr == "_normal_form") or ev.kind == "ret"]
-    bad = None
-    n_pairs = 0
-    for i, ev in enumerate(evs):
-        if ev.kind == "write":
-            nxt = evs[i + 1] if i + 1 < len(evs) else None
-            if nxt is None or nxt.kind != "ret" or nxt.value is None or ev.value is None or \
-                    not (nxt.value.alias & ev.value.alias):
-                bad = ev
-            n_pairs += 1
-    rets = [ev for ev in evs if ev.kind == "ret"]
-    unstored = [ev for i, ev in enumerate(evs) if ev.kind == "ret" and not (i > 0 and evs[i - 1].kind == "write")
-                and not any("_normal_form is not None" in f[0] and f[1] for f in ev.facts)]
+    # Every grammar the function can return has been stored in the cache (by the function or by a private helper whose
+    # result it passes on), or is the cached grammar itself; and everything stored is something that can be returned.
+    # Decided on identities: the aliases of the stored values and of the entry frame's return values.
+    stores = [ev for ev in own(summ) if ev.kind == "write" and ev.attr == "_normal_form" and ev.value is not None]
+    rets = [ev for ev in summ.events if ev.kind == "ret" and ev.value is not None]
+    stored_locs = frozenset().union(*[ev.value.alias for ev in stores]) if stores else frozenset()
+    ret_locs = frozenset().union(*[ev.value.alias for ev in rets]) if rets else frozenset()
+    CACHE = ("self", ("_normal_form",))
+    unstored = [ev for ev in rets if not (ev.value.alias & stored_locs)
+                and not (CACHE in ev.value.alias and any("_normal_form is not None" in f[0] and f[1] for f in ev.facts))]
+    bad = next((ev for ev in stores if not (ev.value.alias & ret_locs)), None)
+    n_pairs = len(stores)
     ob.decide("R4b", "C09.4", fi, "cache-stores-returned-value", bad is None and n_pairs >= 1 and not unstored,
               "every path stores in the cache exactly the grammar it returns (%d paths)" % n_pairs,
               "a path of to_normal_form returns a grammar different from the one it caches (or caches nothing)", summ,
